@@ -209,7 +209,32 @@ func ruleGenericMemo(c *Ctx, rule string) {
 				return true
 			})
 		}
-		c.Ob(rule, p.inst+"/rollback", inf, okDefer, "a deferred handler removes Instances[maker.ikey] when instantiation fails (a failed instantiation is not memoised)")
+		// the removal precedes any call that reports the error (and panics) in the handler
+		if okDefer {
+			for _, st := range inf.Body.List {
+				ds, ok := st.(*ast.DeferStmt)
+				if !ok {
+					continue
+				}
+				lit, ok := ds.Call.Fun.(*ast.FuncLit)
+				if !ok {
+					continue
+				}
+				delPos, errPos := token.NoPos, token.NoPos
+				inspectCalls(lit.Body, func(call *ast.CallExpr) {
+					if id := identOf(call.Fun); id != nil && id.Name == "delete" && delPos == token.NoPos {
+						delPos = call.Pos()
+					}
+					if fn := calleeOf(info, call); fn != nil && (isErrorHelper(fn) || fn.Name() == "ErrorAt") && errPos == token.NoPos {
+						errPos = call.Pos()
+					}
+				})
+				if delPos != token.NoPos && errPos != token.NoPos && errPos < delPos {
+					okDefer = false
+				}
+			}
+		}
+		c.Ob(rule, p.inst+"/rollback", inf, okDefer, "a deferred handler removes Instances[maker.ikey] when instantiation fails (a failed instantiation is not memoised), before the handler reports the error")
 		// the flag is cleared only by the last statement before the final return
 		okFlag := false
 		if flag != nil {
@@ -441,12 +466,13 @@ func init() {
 		Title: "Generic instantiation behaves like textual specialization and is memoized",
 		Explanation: "Decided (the memoisation clause and the binding clause): M1 Comp.genericFunc and Comp.GenericType consult Instances[maker.ikey] and call the instantiator only on a miss, using its result like a cached instance; M2 the instantiator stores the new instance under the same key on every normal path and returns the stored value (it is stored before the body is compiled, so recursive uses find it); " +
 			"M3 a deferred handler deletes Instances[key] when instantiation fails and the failure flag is cleared once, immediately before the final return; M4 maker.ikey is GenericKey(vals, types) of the maker's own arguments, is never reassigned, and element i of the key is the constant argument or xreflect.MakeKey of the type argument; " +
-			"M5 the instance is compiled by a fresh nested compiler (NewComp) after injectBinds declared parameter i as a constant of value vals[i] / alias of types[i] in it, and only that compiler compiles the declaration. " +
+			"M5 the instance is compiled by a fresh nested compiler (NewComp) after injectBinds declared parameter i as a constant of value vals[i] / alias of types[i] in it, and only that compiler compiles the declaration; A3 the closure that evaluates a function instance switches to the frame named by its depth arm (0, 1, 2, file, top, or upn steps) before calling it. " +
 			"Not decided: equivalence of an instance with the textually specialised declaration; inference of type arguments; choice among specialisations; identity of xreflect.MakeKey for identical types (C29).",
 		Assumptions: []string{"xreflect.MakeKey returns equal keys exactly for identical types (canonical interpreter types, C29)"},
 		Rules: []func(*Ctx){func(c *Ctx) {
 			ruleGenericMemo(c, "M-generic-memo")
 			ruleInjectBinds(c, "M5-inject-binds")
+			ruleDepthOfEnvCalls(c, "fast", []string{"generic_func.go"}, "A3-depth")
 			c.Floor("M-generic-memo", 20)
 		}},
 		Technique: "AST/type-resolved custom analysis: lookup-dominates-miss, same-key store, deferred roll-back (transactional shape), call order and receiver identity in the instantiators",
@@ -455,6 +481,8 @@ func init() {
 			{Name: "type-instance-cached-under-name-only", File: "fast/generic_type.go", Old: "\t\tt = c.Type(special.decl.Decl)\n\t\ttyp.Instances[key] = t", New: "\t\tt = c.Type(special.decl.Decl)\n\t\ttyp.Instances[maker.sym.Name] = t"},
 			{Name: "always-reinstantiate", File: "fast/generic_type.go", Old: "\tinstance, _ := typ.Instances[key]\n\tif instance != nil {", New: "\tinstance, _ := typ.Instances[key]\n\tif instance != nil && debug {", Canary: true},
 			{Name: "failed-instance-stays-cached", File: "fast/generic_func.go", Old: "\t\t\tdelete(fun.Instances, key)\n", New: ""},
+			{Name: "error-reported-before-rollback", File: "fast/generic_type.go", Old: "\t\t\tdelete(typ.Instances, key) // remove the cached instance if present\n\t\t\tc.ErrorAt(node.Pos(), \"error instantiating generic type: %v\\n\\t%v\", maker, recover())", New: "\t\t\terr := recover()\n\t\t\tc.ErrorAt(node.Pos(), \"error instantiating generic type: %v\\n\\t%v\", maker, err)\n\t\t\tdelete(typ.Instances, key) // remove the cached instance if present"},
+			{Name: "instance-called-in-wrong-frame", File: "fast/generic_func.go", Old: "\t\t\treturn efun(env.Outer.Outer)", New: "\t\t\treturn efun(env.Outer)"},
 			{Name: "flag-cleared-before-compiling", File: "fast/generic_func.go", Old: "\tfun.Instances[key] = instance\n", New: "\tfun.Instances[key] = instance\n\tpanicking = false\n"},
 			{Name: "parameters-bound-to-next-argument", File: "fast/generic_maker.go", Old: "func (special *genericTypeCandidate) injectBinds(c *Comp) {\n\tfor i, name := range special.decl.Params {\n\t\tt := special.types[i]", New: "func (special *genericTypeCandidate) injectBinds(c *Comp) {\n\tfor i, name := range special.decl.Params {\n\t\tt := special.types[(i+1)%len(special.types)]"},
 			{Name: "compiled-in-declaring-scope", File: "fast/generic_func.go", Old: "expr := c.FuncLit(special.decl.Decl)", New: "expr := maker.comp.FuncLit(special.decl.Decl)"},
